@@ -170,7 +170,11 @@ def run(chk):
           if a != b and b[:len(a)] == a:
             return False
       return True
+    diff_pair = None
     if not consistent(states):
+      # a path is a leaf in one state and a sub-state in another: not mergeable, but a - b is still defined on leaf paths
+      if len(states) >= 2 and consistent(states[:1]) and consistent(states[1:2]):
+        diff_pair = [states[0], states[1]]
       states = states[:1]
     groups = []
     if states[0]:
@@ -178,7 +182,7 @@ def run(chk):
       rng.shuffle(paths)
       cut = sorted(rng.sample(range(len(paths) + 1), min(2, len(paths) + 1)))
       groups = [paths[:cut[0]], paths[cut[0]:cut[-1]]]
-    scases.append({'states': states, 'groups': groups})
+    scases.append({'states': states, 'groups': groups, 'diff_pair': diff_pair})
 
   W = 8
   payloads = [{'dicts': cases[i::W]} for i in range(W)]
@@ -298,6 +302,17 @@ Definition chk (c : case) : bool :=
           chk.violation('oracle', 'a - b raised %s' % o[k]['err'], {'case': c})
         elif {tuple(p): v for p, v in o[k]['ok']} != wantd:
           chk.violation('oracle', 'a - b does not keep exactly the paths of a absent from b', {'case': c, 'observed': o[k]['ok']})
+    if c.get('diff_pair') and 'diff_pair' in o:
+      a, b = c['diff_pair']
+      bp = {tuple(p) for p, _ in b}
+      want_ab = {tuple(p): v for p, v in a if tuple(p) not in bp}
+      for k in ('diff', 'sub'):
+        g = o['diff_pair'][k]
+        if 'err' in g:
+          chk.violation('oracle', 'a - b raised %s for states in which a path is a leaf on one side and a sub-state on the other' % g['err'], {'a': a, 'b': b})
+        elif {tuple(p): v for p, v in g['ok']} != want_ab:
+          chk.violation('oracle', 'a - b does not keep exactly the leaf paths of a that are absent from b (a path is a leaf on one side and a sub-state on the other)',
+                        {'a': a, 'b': b, 'observed': g['ok']})
     if 'ok' in o['pure']:
       pr = o['pure']['ok']
       if not pr['equal'] or sorted(map(str, pr['restored'])) != sorted(map(str, ss[0])):
@@ -346,6 +361,9 @@ Definition chk (c : list flat * flat * option flat) : bool :=
 def probe_known(chk, known):
   """Replay the listed witnesses (F10, F13) on the implementation."""
   res = common.run_impl('impl_c16_probe.py', {})
+  if res['opaque_mapping_leaves']['fails']:
+    chk.violation('oracle', 'flatten_dict / unflatten_dict / path_aware_map do not treat a Mapping that is neither a dict nor a FrozenDict as a leaf (it is descended into, copied or visited entry by entry)',
+                  res['opaque_mapping_leaves'])
   for key, what in (('F10-root-is-leaf', 'flatten_dict(is_leaf true at the root) gives key () which unflatten_dict cannot restore (IndexError)'),
                     ('F13-multichar-sep', "flatten_dict({'a/': {'b': 1}}, sep='//') does not round-trip (multi-character separator)")):
     if res[key]['fails']:
